@@ -75,14 +75,34 @@ type c20Files struct {
 	// every callback is at least the redraw interval after the one before: no line is throttled,
 	// so the bar and the solo bar must draw at exactly the same callbacks
 	noThrottle bool
+	lastPct    int // the percentage of the last line of the current file, -1 = none yet
+	lastTok    string
+	rep        int
+	order      []string // the callbacks in the order they were delivered, for the language of orders (cb_lang_ok)
 }
 
 func (c *ctx) c20NewFiles(clock *atomic.Int64, base int64, cols int, label string, gap func() int64) *c20Files {
 	clock.Store(base)
 	return &c20Files{c: c, clock: clock, base: base, gap: gap, label: label, cols: cols,
 		main: trzsz.VerifNewProgress(int32(cols), 0, ""), probe: trzsz.VerifNewProgress(2000, 0, ""),
-		tabs: c20NewTabs(), first: true, pre: -1,
+		tabs: c20NewTabs(), first: true, pre: -1, lastPct: -1,
 		desc: fmt.Sprintf("files(%s): newTextProgressBar(columns=%d)", label, cols)}
+}
+
+// the description of the history so far; a callback repeated with the same argument is written once with its count
+func (f *c20Files) add(tok string) {
+	if tok == f.lastTok {
+		f.rep++
+		return
+	}
+	f.desc, f.lastTok, f.rep = f.d()+tok, tok, 1
+}
+
+func (f *c20Files) d() string {
+	if f.rep > 1 {
+		return fmt.Sprintf("%s x%d", f.desc, f.rep)
+	}
+	return f.desc
 }
 
 func c20Apply(q *trzsz.VerifProgress, kind string, num int64, name string) {
@@ -123,20 +143,31 @@ func (f *c20Files) call(kind string, num int64, name string) {
 	case "M":
 		f.fileNo++
 		f.name, f.sizes, f.pre, f.lines = name, nil, -1, 0
+		f.lastPct = -1
 		f.solo = trzsz.VerifNewProgress(2000, 0, "")
-		f.desc += fmt.Sprintf(" | file %d: onName(%s)", f.fileNo, c20NameDesc(name))
+		f.add(fmt.Sprintf(" | file %d: onName(%s)", f.fileNo, c20NameDesc(name)))
 	case "Z":
 		f.sizes = append(f.sizes, num)
-		f.desc += fmt.Sprintf(" onSize(%d)", num)
+		f.add(fmt.Sprintf(" onSize(%d)", num))
 	case "P":
 		f.pre = num
-		f.desc += fmt.Sprintf(" setPreSize(%d)", num)
+		f.add(fmt.Sprintf(" setPreSize(%d)", num))
 	case "S":
-		f.desc += fmt.Sprintf(" onStep(%d)", num)
+		f.add(fmt.Sprintf(" onStep(%d)", num))
 	case "D":
-		f.desc += " onDone()"
+		f.add(" onDone()")
 	case "N":
-		f.desc += fmt.Sprintf(" onNum(%d)", num)
+		f.add(fmt.Sprintf(" onNum(%d)", num))
+	}
+	switch kind {
+	case "M":
+		f.order = append(f.order, "M:"+c20Runes(name))
+	case "S":
+		f.order = append(f.order, fmt.Sprintf("S:%d:0:-:-:-", num))
+	case "D":
+		f.order = append(f.order, "D:0:-:-:-")
+	default:
+		f.order = append(f.order, fmt.Sprintf("%s:%d", kind, num))
 	}
 	var pf, sf []string
 	var out string
@@ -171,7 +202,7 @@ func (f *c20Files) call(kind string, num int64, name string) {
 		f.ops = append(f.ops, fmt.Sprintf("%s:%d", kind, num))
 	}
 	if pan {
-		c.violate("files:panic", "rendering the progress line panics", f.desc+": panic: "+msg)
+		c.violate("files:panic", "rendering the progress line panics", f.d()+": panic: "+msg)
 		f.outs = append(f.outs, "panic")
 		f.dead = true
 		return
@@ -188,7 +219,7 @@ func (f *c20Files) call(kind string, num int64, name string) {
 			return fmt.Sprintf("%q", strings.Join(x, " | "))
 		}
 		c.violate("files:line-missing-or-extra", "a callback of a file draws a line on the bar but not on a fresh bar that saw only this file (or the other way round): state of an earlier file leaks into it",
-			fmt.Sprintf("%s: the bar shows %s, a bar that saw only file %d shows %s", f.desc, shown(pf), f.fileNo, shown(sf)))
+			fmt.Sprintf("%s: the bar shows %s, a bar that saw only file %d shows %s", f.d(), shown(pf), f.fileNo, shown(sf)))
 	}
 	if pf != nil {
 		f.lines++
@@ -197,19 +228,19 @@ func (f *c20Files) call(kind string, num int64, name string) {
 			f.compared++
 			if strings.Join(pf, " | ") != strings.Join(sf, " | ") {
 				c.violate("files:line-depends-on-earlier-file", "a progress line of a file differs from the line the same callbacks produce on a fresh bar: state of an earlier file leaks into it",
-					fmt.Sprintf("%s: the bar shows %q, a bar that saw only file %d shows %q", f.desc, strings.Join(pf, " | "), f.fileNo, strings.Join(sf, " | ")))
+					fmt.Sprintf("%s: the bar shows %q, a bar that saw only file %d shows %q", f.d(), strings.Join(pf, " | "), f.fileNo, strings.Join(sf, " | ")))
 			}
 		}
 		fresh := f.pre < 0 && len(f.sizes) == 1
 		if kind == "S" && num == 0 && fresh && f.sizes[0] > 0 && (pf[0] != "0%" || pf[1] != c20SizeText(0)) {
 			c.violate("files:fresh-file-does-not-start-at-zero", "a file that is sent from its beginning does not start at 0 % with nothing transferred",
-				fmt.Sprintf("%s: the line shows %s | %s", f.desc, pf[0], pf[1]))
+				fmt.Sprintf("%s: the line shows %s | %s", f.d(), pf[0], pf[1]))
 		}
 		if kind == "D" && len(f.sizes) > 0 {
 			full := f.sizes[0] // the first size announced for a file is its full size
 			if want := c20SizeText(full); pf[0] != "100%" || pf[1] != want {
 				c.violate("files:file-does-not-end-at-own-size", "the last line of a file does not show 100 % of the file's own size",
-					fmt.Sprintf("%s: file %d has %d bytes (%s), its last line shows %s | %s", f.desc, f.fileNo, full, want, pf[0], pf[1]))
+					fmt.Sprintf("%s: file %d has %d bytes (%s), its last line shows %s | %s", f.d(), f.fileNo, full, want, pf[0], pf[1]))
 			}
 		}
 		if kind == "S" && len(f.sizes) > 0 && f.sizes[0] > 0 {
@@ -222,11 +253,18 @@ func (f *c20Files) call(kind string, num int64, name string) {
 				wantPct := fmt.Sprintf("%d%%", (200*pos+full)/(2*full))
 				if wantTotal := c20SizeText(pos); pf[1] != wantTotal || pf[0] != wantPct {
 					c.violate("files:line-shows-wrong-position", "a progress line does not show the file's own position (prefix already present + bytes sent) of its own size",
-						fmt.Sprintf("%s: position %d of %d bytes is %s | %s, the line shows %s | %s", f.desc, pos, full, wantPct, wantTotal, pf[0], pf[1]))
+						fmt.Sprintf("%s: position %d of %d bytes is %s | %s, the line shows %s | %s", f.d(), pos, full, wantPct, wantTotal, pf[0], pf[1]))
 				}
 			}
 		}
-		f.c.c20PctRange(pf[0], f.desc)
+		if v, ok := f.c.c20PctRange(pf[0], f.d()); ok {
+			// in the transfer's own callback order the full size and the remaining size of a file agree, so the
+			// percentage may not fall anywhere between two onName calls
+			if v < f.lastPct {
+				c.violate("pct-decreased", "percentage decreased within a file", fmt.Sprintf("%s: %d%% after %d%%", f.d(), v, f.lastPct))
+			}
+			f.lastPct = v
+		}
 	}
 
 	// ---- the writes, for the comparison with the model
@@ -243,7 +281,7 @@ func (f *c20Files) call(kind string, num int64, name string) {
 		}
 		f.first = false
 		if w := c20Width(text); f.cols >= 5 && w > f.cols {
-			c.violate("width:history", "progress line wider than the terminal", fmt.Sprintf("%s: columns=%d width=%d line=%q", f.desc, f.cols, w, text))
+			c.violate("width:history", "progress line wider than the terminal", fmt.Sprintf("%s: columns=%d width=%d line=%q", f.d(), f.cols, w, text))
 		}
 		parts = append(parts, c20Runes(rest))
 	}
@@ -353,7 +391,135 @@ func (f *c20Files) playPlan(p c20FilePlan) {
 	}
 }
 
+// c20LateStep moves the last onStep before the first onDone behind the following onName
+func c20LateStep(order []string) []string {
+	d, m := -1, -1
+	for i, o := range order {
+		if d < 0 && strings.HasPrefix(o, "D:") {
+			d = i
+		} else if d >= 0 && m < 0 && strings.HasPrefix(o, "M:") {
+			m = i
+		}
+	}
+	if d < 1 || m < 0 || !strings.HasPrefix(order[d-1], "S:") {
+		return order
+	}
+	var out []string
+	out = append(out, order[:d-1]...)
+	out = append(out, order[d:m+1]...)
+	out = append(out, order[d-1])
+	out = append(out, order[m+1:]...)
+	return out
+}
+
 // ---- 2. real transfers
+
+// c20Lag watches the callbacks of a real transfer at the moment they are ATTEMPTED (export hook
+// `before`, outside the serialisation) and makes the goroutine that displays progress lag once per
+// phase of a file, the way a slow terminal does: the first step beyond 0 of the hash phase and of the data
+// phase is held back until the next file has been announced - or for 300 ms, which is what happens when the transfer orders its
+// callbacks (the main goroutine joins the display goroutine before it goes on).  Two callbacks in
+// flight at once mean the transfer does not order them.
+type c20Lag struct {
+	mu         sync.Mutex
+	inflight   []string
+	attempts   int
+	delayed    bool
+	mDelivered int
+	overlaps   [][3]string
+	history    []string
+	histLast   string
+	histRep    int
+}
+
+func c20CallDesc(kind string, num int64, name string) string {
+	switch kind {
+	case "M":
+		return fmt.Sprintf("onName(%s)", c20NameDesc(name))
+	case "D":
+		return "onDone()"
+	}
+	return fmt.Sprintf("%s(%d)", map[string]string{"N": "onNum", "Z": "onSize", "S": "onStep", "P": "setPreSize", "U": "setPause"}[kind], num)
+}
+
+func (l *c20Lag) before(kind string, num int64, name string) {
+	l.mu.Lock()
+	what := c20CallDesc(kind, num, name)
+	if n := len(l.history); n > 0 && l.histLast == what {
+		l.histRep++
+		l.history[n-1] = fmt.Sprintf("%s x%d", what, l.histRep)
+	} else {
+		l.history, l.histLast, l.histRep = append(l.history, what), what, 1
+	}
+	if len(l.inflight) > 0 && len(l.overlaps) < 4 {
+		key, txt := "files:callbacks-overlap", "the transfer makes a progress callback while another one is still under way: it does not order them"
+		if kind == "M" {
+			key, txt = "files:callback-after-next-file", "the next file is announced to the progress bar while a step of the previous file has not been delivered yet"
+		}
+		l.overlaps = append(l.overlaps, [3]string{key, txt, fmt.Sprintf("%s attempted while %s is still under way; callbacks attempted so far: %s",
+			what, strings.Join(l.inflight, ", "), strings.Join(l.history, " "))})
+	}
+	l.inflight = append(l.inflight, what)
+	l.attempts++
+	mine := l.attempts
+	switch kind {
+	case "M", "Z":
+		l.delayed = false // one step is held back per phase: the hash steps and the data steps of every file
+	}
+	hold := kind == "S" && !l.delayed && num > 0
+	if hold {
+		l.delayed = true
+	}
+	seen := l.mDelivered
+	// a size that arrives while a step is still under way (only a transfer that does not order its
+	// callbacks gets here) lets that step go first, so that what the bar then shows does not depend on a race
+	waitStep := kind == "Z" && len(l.inflight) > 1
+	l.mu.Unlock()
+	if waitStep {
+		for i := 0; i < 100; i++ {
+			time.Sleep(time.Millisecond)
+			l.mu.Lock()
+			alone := len(l.inflight) <= 1
+			l.mu.Unlock()
+			if alone {
+				break
+			}
+		}
+	}
+	if hold {
+		// until the next file has been announced, or 30 ms after some other callback was attempted, or
+		// 300 ms - which is what it comes to when the transfer waits for this goroutine
+		other := 0
+		for i := 0; i < 300; i++ {
+			time.Sleep(time.Millisecond)
+			l.mu.Lock()
+			moved := l.mDelivered > seen
+			if l.attempts > mine {
+				other++
+			}
+			l.mu.Unlock()
+			if moved || other >= 30 {
+				break
+			}
+		}
+	}
+}
+
+// done is called when the callback has been delivered
+func (l *c20Lag) done(kind string, num int64, name string) {
+	l.mu.Lock()
+	defer l.mu.Unlock()
+	what := c20CallDesc(kind, num, name)
+	for i, x := range l.inflight {
+		if x == what {
+			l.inflight = append(l.inflight[:i], l.inflight[i+1:]...)
+			break
+		}
+	}
+	if kind == "M" {
+		l.mDelivered++
+	}
+}
 
 func c20FillFile(path string, n int, seed int64) []byte {
 	b := make([]byte, n)
@@ -498,22 +664,68 @@ func genProgressFiles(c *ctx) {
 				f.noThrottle = true
 				msg := trzsz.VerifRunFilesPair(paths, filepath.Join(dir, "dst"), proto, onSender, f.call)
 				if msg != "" {
-					c.violate("files:harness", "the real transfer did not complete", f.desc+": "+msg)
+					c.violate("files:harness", "the real transfer did not complete", f.d()+": "+msg)
 					continue
 				}
 				for _, rf := range sc {
 					want, _ := os.ReadFile(filepath.Join(dir, "src", rf.name))
 					got, err := os.ReadFile(filepath.Join(dir, "dst", rf.name))
 					if err != nil || string(got) != string(want) {
-						c.violate("files:harness", "the real transfer did not deliver the file", f.desc+": "+rf.name)
+						c.violate("files:harness", "the real transfer did not deliver the file", f.d()+": "+rf.name)
 					}
 				}
 				c.count("files:real-transfer")
+				c.emit(true, "pcborder", "1", strings.Join(f.order, "/"))
+				if run == 1 {
+					// the same callbacks with the last step of the first file delivered after the second file's name:
+					// not an order a transfer may produce
+					c.emit(true, "pcborder", "0", strings.Join(c20LateStep(f.order), "/"))
+				}
 				if f.fileNo != len(sc) {
-					c.violate("files:harness", "the real transfer did not announce every file", fmt.Sprintf("%s: %d of %d", f.desc, f.fileNo, len(sc)))
+					c.violate("files:harness", "the real transfer did not announce every file", fmt.Sprintf("%s: %d of %d", f.d(), f.fileNo, len(sc)))
 				}
 				f.finish(true)
 			}
+		}
+	}
+
+	// ---- the ORDER of the callbacks: the display goroutine lags at every file boundary
+	for _, proto := range []int{2, 3, 4} {
+		for _, onSender := range []bool{true, false} {
+			run++
+			dir := filepath.Join(root, fmt.Sprint(run))
+			names := []string{"file1.bin", "file2.bin", "file3.bin"}
+			sizesL := []int{64 * 1024, 300 * 1024, 5000}
+			var paths []string
+			for k := range names {
+				c20FillFile(filepath.Join(dir, "src", names[k]), sizesL[k], int64(3000*run+k))
+				paths = append(paths, filepath.Join(dir, "src", names[k]))
+			}
+			os.MkdirAll(filepath.Join(dir, "dst"), 0755)
+			if d2, err := os.ReadFile(paths[1]); err == nil {
+				os.WriteFile(filepath.Join(dir, "dst", names[1]), d2[:100000], 0644) // the second file is resumed (protocol >= 3)
+			}
+			side := "receiver"
+			if onSender {
+				side = "sender"
+			}
+			f := c.c20NewFiles(&clock, base, 120, fmt.Sprintf("real transfer with a lagging display goroutine, protocol %d, callbacks of the %s, files 65536 307200 (100000 at the destination) 5000 bytes", proto, side),
+				func() int64 { return 1000 })
+			f.noThrottle = true
+			lag := &c20Lag{}
+			msg := trzsz.VerifRunFilesPairLag(paths, filepath.Join(dir, "dst"), proto, onSender,
+				func(kind string, num int64, name string) { f.call(kind, num, name); lag.done(kind, num, name) }, lag.before)
+			time.Sleep(5 * time.Millisecond)
+			for _, v := range lag.overlaps {
+				c.violate(v[0], v[1], f.d()+": "+v[2])
+			}
+			if msg != "" {
+				c.violate("files:harness", "the real transfer did not complete", f.d()+": "+msg)
+				continue
+			}
+			c.count("files:real-transfer-lagging-display")
+			c.emit(true, "pcborder", "1", strings.Join(f.order, "/"))
+			f.finish(true)
 		}
 	}
 
@@ -589,11 +801,39 @@ func c20FilesE2E(dir string, upload bool, order int) (viol [][3]string, nlines i
 		}
 	}
 	desc := fmt.Sprintf("e2e -y upload=%v files %s:%d/%d %s:%d/%d (bytes already at the destination / size)", upload, names[0], have[0], sizes[0], names[1], have[1], sizes[1])
-	r := runTransfer(e2eCfg{upload: upload, overwrite: true, proto: -1, compress: "no", deadline: 40 * time.Second}, tops, dest)
+	// a slow terminal: every progress line takes 120 ms to write.  The bar is driven by one goroutine at a
+	// time (the transfer joins the goroutine that displays the steps before it reports the end of a file), so
+	// two progress writes never overlap; if they do, the callbacks are not ordered
+	var termMu sync.Mutex
+	writing := 0
+	overlap := ""
+	hook := func(p []byte) {
+		if !strings.Contains(string(p), "%") {
+			return
+		}
+		termMu.Lock()
+		if writing > 0 && overlap == "" {
+			overlap = strings.TrimSpace(c20AnyCSI.ReplaceAllString(strings.ReplaceAll(string(p), "\r", ""), ""))
+		}
+		writing++
+		termMu.Unlock()
+		time.Sleep(120 * time.Millisecond)
+		termMu.Lock()
+		writing--
+		termMu.Unlock()
+	}
+	r := runTransfer(e2eCfg{upload: upload, overwrite: true, proto: -1, compress: "no", deadline: 40 * time.Second, termHook: hook}, tops, dest)
+	termMu.Lock()
+	if overlap != "" {
+		viol = append(viol, [3]string{"files:e2e:progress-writes-overlap", "two goroutines write progress lines to the terminal at the same time: the transfer does not order its progress callbacks",
+			fmt.Sprintf("%s, terminal that takes 120 ms per line: the line %q was written while another progress line was still being written", desc, overlap)})
+	}
+	termMu.Unlock()
 	if r.hung || !r.clientDone || !r.serverExited || (upload && r.uploadErr != nil) {
 		return nil, 0, fmt.Sprintf("%s: hung=%v clientDone=%v serverExited=%v uploadErr=%v", desc, r.hung, r.clientDone, r.serverExited, r.uploadErr)
 	}
 	last := map[int][2]string{}
+	lastPct := map[int]int{}
 	for _, w := range strings.Split(r.termOut, "\r") {
 		text := c20AnyCSI.ReplaceAllString(w, "")
 		m := c20FileLine.FindStringSubmatch(text)
@@ -604,6 +844,13 @@ func c20FilesE2E(dir string, upload bool, order int) (viol [][3]string, nlines i
 		idx, _ := strconv.Atoi(m[1])
 		if idx < 1 || idx > 2 {
 			continue
+		}
+		if pv, _ := strconv.Atoi(m[4]); true {
+			if prev, ok := lastPct[idx]; ok && pv < prev {
+				viol = append(viol, [3]string{"files:e2e:pct-decreased", "percentage decreased within a file (lines that reached the terminal)",
+					fmt.Sprintf("%s: file %d shows %d%% after %d%%: %q", desc, idx, pv, prev, m[0])})
+			}
+			lastPct[idx] = pv
 		}
 		last[idx] = [2]string{m[4] + "%", m[5]}
 		if got := c20ParseSizeText(m[5]); got > float64(sizes[idx-1])*1.01+1 {
